@@ -2,6 +2,7 @@ package rules
 
 import (
 	"fmt"
+	"go/token"
 	"go/types"
 	"strings"
 
@@ -18,6 +19,7 @@ func init() {
 }
 
 type tarShape struct {
+	cleanCall *ssa.Call    // the normaliser's path.Clean call
 	named     *types.Named // ReaderFS
 	destField string       // unarchiveFS
 	psField   string
@@ -35,6 +37,7 @@ func findTarShape(p *load.Program) *tarShape {
 		return nil
 	}
 	sh := &tarShape{named: n}
+	_ = sh.cleanCall
 	st := n.Underlying().(*types.Struct)
 	fsI := stdIface(p, "io/fs", "FS")
 	for i := 0; i < st.NumFields(); i++ {
@@ -92,8 +95,9 @@ func findTarShape(p *load.Program) *tarShape {
 		clean, trim := false, false
 		ssax.Instrs(fn, func(ins ssa.Instruction) {
 			if cl, ok := ins.(*ssa.Call); ok {
-				if ssax.CalleeIs(cl, "path", "Clean") && cl.Call.Args[0] == ssa.Value(fn.Params[0]) {
+				if ssax.CalleeIs(cl, "path", "Clean") && dependsOnDeep(cl.Call.Args[0], fn.Params[0]) {
 					clean = true
+					sh.cleanCall = cl
 				}
 				if ssax.CalleeIs(cl, "strings", "TrimPrefix") {
 					if s, ok := ssax.ConstString(cl.Call.Args[1]); ok && s == "/" {
@@ -111,13 +115,15 @@ func findTarShape(p *load.Program) *tarShape {
 
 func runC12(c *core.Ctx) {
 	runFixtures(c, "drop", "valid")
-	c.Explain("Structural clauses of C12 decided from source (thin: contents, modes, 'nothing else' and writer schedules are behaviour): (R12.1) every read of archive/tar.Header.Name in package tar is passed through the normaliser (path.Clean + leading-\"/\" trim) and the normalised name reaches only calls on the destination file system (interface methods, FS helpers), the announce key and path.Dir — package tar contains no primitive sink, so an escaping '../x' is refused by the destination's own validation (C04/A1); (R12.2) the error of every destination-FS call and every copy step in the unpack functions and their background closures propagates: returned, wrapped, or sent on the error channel whose receive ends the unpack with that error (accepted: errors.Is(ErrExist) on Mkdir of a directory entry, which continues with Chmod; io.EOF on the tar stream); (R12.3) on that ErrExist edge Chmod is called with the header's mode; (R12.4) the destination calls for an entry are made after the success edge of creating its parent path; (R12.5) every buffer taken from a pool is given back on every path that does not end the unpack with an error, closure continuations included. NOT claimed: the resulting tree.")
+	c.Explain("Structural clauses of C12 decided from source (thin: contents, modes, 'nothing else' and writer schedules are behaviour): (R12.1) every read of archive/tar.Header.Name in package tar is passed through the normaliser (path.Clean + leading-\"/\" trim) and the normalised name reaches only calls on the destination file system (interface methods, FS helpers), the announce key and path.Dir — package tar contains no primitive sink, so an escaping '../x' is refused by the destination's own validation (C04/A1); (R12.2) the error of every destination-FS call and every copy step in the unpack functions and their background closures propagates: returned, wrapped, or sent on the error channel whose receive ends the unpack with that error (accepted: errors.Is(ErrExist) on Mkdir of a directory entry, which continues with Chmod; io.EOF on the tar stream); (R12.3) on that ErrExist edge Chmod is called with the header's mode; (R12.4) the destination calls for an entry are made after the success edge of creating its parent path; (R12.5) every buffer taken from a pool is given back on every path that does not end the unpack with an error, closure continuations included, and no path (callees and spawned writers counted) gives the same buffer back twice — a buffer that is in the pool twice is handed to two later entries, whose bytes then mix; (R12.6) the normaliser applies path.Clean to the entry name itself: cleaning a string with '/' prepended silently drops leading '..' elements, so an entry that resolves outside the root would be unpacked inside it instead of failing the unpack; (R12.7) the Mkdir/Chmod of a directory entry runs in the read loop itself, not in a spawned writer: in the background it races with the next entry's preparation of the same directory as a parent (0700), and the header's mode can be lost depending on the schedule. NOT claimed: the resulting tree.")
 	c.Assume("A1: the destination file system rejects names that would escape its root", "A2: archive/tar, path, io behave as documented")
 	c.RuleDoc("R12.1", "header names normalised and only delegated")
 	c.RuleDoc("R12.2", "a refused or failing entry fails the unpack")
 	c.RuleDoc("R12.3", "existing directory entries get their mode")
 	c.RuleDoc("R12.4", "parents first")
-	c.RuleDoc("R12.5", "pool buffers are returned")
+	c.RuleDoc("R12.5", "pool buffers are returned, once")
+	c.RuleDoc("R12.7", "directory entries are created in the foreground")
+	c.RuleDoc("R12.6", "the normaliser cleans the entry name itself, never a rooted string")
 	for _, p := range c.Progs {
 		c.SetProg(p)
 		sh := findTarShape(p)
@@ -130,12 +136,15 @@ func runC12(c *core.Ctx) {
 		r12DirMode(c, p, sh)
 		r12Parents(c, p, sh)
 		r12Buffers(c, p, sh, "R12.5")
+		r12Normaliser(c, p, sh)
 	}
 	c.Floor("R12.1", 2)
 	c.Floor("R12.2", 8)
 	c.Floor("R12.3", 1)
 	c.Floor("R12.4", 1)
 	c.Floor("R12.5", 2)
+	c.Floor("R12.6", 1)
+	c.Floor("R12.7", 1)
 }
 
 func r12Names(c *core.Ctx, p *load.Program, sh *tarShape) {
@@ -385,6 +394,10 @@ func r12DirMode(c *core.Ctx, p *load.Program, sh *tarShape) {
 					ok = true
 				}
 			})
+			// R12.7: the directory entry is created before the next entry is processed
+			k7 := fname(fn) + "|dir-entry-in-foreground"
+			c.Check(fn.Parent() == nil, "R12.7", k7, p.Pos(mk.Pos()), "the directory entry's Mkdir/Chmod runs in the read loop's goroutine, before the next entry's parents are prepared",
+				fmt.Sprintf("%s creates a directory entry in a background closure: it races with the next entry's mkdirAll of the same directory (look-up, then unconditional save), which can replace the header's mode with the 0700 default — the final mode depends on the schedule", fname(fn)))
 			c.Check(ok, "R12.3", key, p.Pos(mk.Pos()), "Mkdir's ErrExist edge calls Chmod(same path, same header mode)",
 				fmt.Sprintf("%s: when the directory of a directory entry already exists (created earlier as a parent with 0700), Chmod with the entry's mode is not called on that edge: the directory keeps the wrong permission bits", fname(fn)))
 		})
@@ -394,7 +407,7 @@ func r12DirMode(c *core.Ctx, p *load.Program, sh *tarShape) {
 	}
 	visit(sh.process)
 	if !found {
-		c.Hard("R12.3: no Mkdir on the destination file system in the entry processing")
+		c.Bad("R12.3", fname(sh.process)+"|mkdir-exist-edge", p.Pos(sh.process.Pos()), fmt.Sprintf("%s (and the writers it spawns) no longer calls Mkdir on the destination for a directory entry: a directory that already exists — created with the default mode for an earlier child — never receives the mode recorded in its own header", fname(sh.process)))
 	}
 }
 
@@ -523,17 +536,91 @@ func r12Buffers(c *core.Ctx, p *load.Program, sh *tarShape, rule string) {
 				})
 				return all
 			}
+			// may-give-back summaries: callee releases its parameter i on some path
+			mayDone := func(callee *ssa.Function, i int) bool {
+				if callee == nil || callee.Blocks == nil || i >= len(callee.Params) {
+					return false
+				}
+				found := false
+				ssax.InstrsDeep(callee, func(_ *ssa.Function, ins ssa.Instruction) {
+					if c2, ok := ins.(*ssa.Call); ok {
+						if cal := ssax.StaticCallee(c2); cal != nil && cal.Name() == "Done" && len(c2.Call.Args) == 1 && c2.Call.Args[0] == ssa.Value(callee.Params[i]) {
+							found = true
+						}
+					}
+				})
+				return found
+			}
+			// how often a value is given back by one instruction: Done itself, or a callee that may release it
+			gives := func(ins ssa.Instruction, is func(ssa.Value) bool) int {
+				c2, ok := ins.(*ssa.Call)
+				if !ok {
+					return 0
+				}
+				cal := ssax.StaticCallee(c2)
+				if cal == nil {
+					return 0
+				}
+				if cal.Name() == "Done" && len(c2.Call.Args) == 1 && is(c2.Call.Args[0]) {
+					return 1
+				}
+				n := 0
+				for i, a := range c2.Call.Args {
+					if is(a) && mayDone(cal, i) {
+						n++
+					}
+				}
+				return n
+			}
+			closureMaxDone := func(mc *ssa.MakeClosure) int {
+				cf := mc.Fn.(*ssa.Function)
+				var fv *ssa.FreeVar
+				for i, bnd := range mc.Bindings {
+					if bnd == buf {
+						fv = cf.FreeVars[i]
+					}
+					if a, ok := bnd.(*ssa.Alloc); ok {
+						stores, _ := ssax.CellStores(a)
+						if len(stores) == 1 && stores[0].Val == buf {
+							fv = cf.FreeVars[i]
+						}
+					}
+				}
+				if fv == nil {
+					return 0
+				}
+				max := 0
+				ssax.EnumPaths(cf, cf.Blocks[0], 0, nil, ssax.PathHooks{
+					Instr: func(s *ssax.PathState, ins ssa.Instruction) {
+						s.Counts["n"] += gives(ins, func(v ssa.Value) bool { return v == ssa.Value(fv) || cellOf(v) == ssa.Value(fv) })
+					},
+					End: func(s *ssax.PathState, _ ssa.Instruction) {
+						if s.Counts["n"] > max {
+							max = s.Counts["n"]
+						}
+					},
+				})
+				return max
+			}
 			eidx := ssax.ErrorResultIndex(fn.Signature)
 			leak := ""
+			twice := ""
 			ssax.EnumPaths(fn, b, idx+1, nil, ssax.PathHooks{
 				Instr: func(s *ssax.PathState, ins ssa.Instruction) {
 					if isDone(s, ins) {
 						s.Counts["done"] = 1
 					}
+					s.Counts["n"] += gives(ins, func(v ssa.Value) bool { return s.Resolve(v) == buf || singleStored(v) == buf })
 					if g, ok := ins.(*ssa.Go); ok {
-						if mc, ok := g.Call.Value.(*ssa.MakeClosure); ok && closureReturns(mc) {
-							s.Counts["done"] = 1
+						if mc, ok := g.Call.Value.(*ssa.MakeClosure); ok {
+							if closureReturns(mc) {
+								s.Counts["done"] = 1
+							}
+							s.Counts["n"] += closureMaxDone(mc)
 						}
+					}
+					if s.Counts["n"] >= 2 && twice == "" {
+						twice = p.Pos(ins.Pos())
 					}
 				},
 				End: func(s *ssax.PathState, last ssa.Instruction) {
@@ -545,6 +632,11 @@ func r12Buffers(c *core.Ctx, p *load.Program, sh *tarShape, rule string) {
 					}
 				},
 			})
+			if twice != "" {
+				c.Bad(rule, key+"|once", p.Pos(cl.Pos()), fmt.Sprintf("%s: the buffer taken at %s can be given back to its pool twice on one path (second release at or after %s, callees and spawned writers counted): the pool then hands the same buffer to two later entries, and one file receives the other's bytes", fname(fn), p.Pos(cl.Pos()), twice))
+			} else {
+				c.OK(rule, key+"|once", p.Pos(cl.Pos()), "given back at most once on every path (callees and spawned writers counted)")
+			}
 			c.Check(leak == "", rule, key, p.Pos(cl.Pos()), "given back (directly or by the spawned writer) on every path that lets the unpack continue",
 				fmt.Sprintf("%s: the buffer taken at %s is not returned to its pool on the path ending at %s although the unpack continues: after as many entries as the pool holds the reader blocks forever", fname(fn), p.Pos(cl.Pos()), leak))
 		}
@@ -587,4 +679,50 @@ func sameVar(a, b ssa.Value) bool {
 		return !esc && len(stores) <= 1
 	}
 	return true
+}
+
+// r12Normaliser (R12.6)
+func r12Normaliser(c *core.Ctx, p *load.Program, sh *tarShape) {
+	cl := sh.cleanCall
+	if cl == nil {
+		return
+	}
+	fn := cl.Parent()
+	key := fname(fn) + "|clean-argument"
+	rooted := ""
+	var walk func(v ssa.Value, d int)
+	walk = func(v ssa.Value, d int) {
+		if d > 6 || rooted != "" {
+			return
+		}
+		switch x := v.(type) {
+		case *ssa.BinOp:
+			if x.Op == token.ADD {
+				if s, ok := ssax.ConstString(x.X); ok && strings.HasPrefix(s, "/") {
+					rooted = fmt.Sprintf("%q + name", s)
+					return
+				}
+				walk(x.X, d+1)
+				walk(x.Y, d+1)
+			}
+		case *ssa.Call:
+			if ssax.CalleeIs(x, "path", "Join") {
+				for i, e := range variadicElems(x.Call.Args[0]) {
+					if s, ok := ssax.ConstString(e); ok && i == 0 && strings.HasPrefix(s, "/") {
+						rooted = fmt.Sprintf("path.Join(%q, name)", s)
+					}
+				}
+			}
+			for _, a := range x.Call.Args {
+				walk(a, d+1)
+			}
+		case *ssa.Phi:
+			for _, e := range x.Edges {
+				walk(e, d+1)
+			}
+		}
+	}
+	walk(cl.Call.Args[0], 0)
+	c.Check(rooted == "", "R12.6", key, p.Pos(cl.Pos()), "path.Clean is applied to the entry name itself: an escaping name keeps its leading '..' and is refused by the destination",
+		fmt.Sprintf("%s cleans %s: path.Clean of a rooted path drops leading '..' elements, so an entry named '../x' is unpacked as 'x' inside the root instead of making the unpack fail", fname(fn), rooted))
 }
